@@ -1554,6 +1554,7 @@ func ruleTSCAN(p *Program, r *Reporter) {
 		header   *ssa.BasicBlock
 	}
 	var scans []scan
+	var partial []string
 	for _, b := range fn.Blocks {
 		iff, ok := b.Instrs[len(b.Instrs)-1].(*ssa.If)
 		if !ok {
@@ -1590,6 +1591,13 @@ func ruleTSCAN(p *Program, r *Reporter) {
 				header = d
 				break
 			}
+		}
+		// the scan must run over the results themselves: when the scanned element is
+		// results[i], the loop is bounded by len(results), not by another collection
+		// (the commit-time checks append one more result than there are operations)
+		if header != nil && !scanCoversSlice(fa, header) {
+			partial = append(partial, p.Pos(iff.Cond.Pos()))
+			continue
 		}
 		scans = append(scans, scan{iff, bad, good, header})
 	}
@@ -1648,6 +1656,9 @@ func ruleTSCAN(p *Program, r *Reporter) {
 		}
 		okk := false
 		why := "no scan of the operation results for a non-empty Error dominates this call: a failed transaction would be notified / committed"
+		if len(partial) > 0 {
+			why = "the scan for a non-empty Error at " + strings.Join(partial, ", ") + " is bounded by another collection than the results it reads: the extra result appended by the commit-time checks (index/referential violation) is never looked at and the transaction is committed"
+		}
 		for _, s := range scans {
 			if s.header == nil || !s.header.Dominates(t.Block()) {
 				continue
@@ -1741,4 +1752,57 @@ func errorScanHelper(g *ssa.Function, errFld *types.Var) (polarity bool, ok bool
 		}
 	}
 	return false, false
+}
+
+// scanCoversSlice: fa is &elem.Error with elem loaded from S[i]; the loop whose
+// header is h must be bounded by len(S) (a range over S), or elem must come
+// from a range over S directly.
+func scanCoversSlice(fa *ssa.FieldAddr, h *ssa.BasicBlock) bool {
+	// elem pointer: load of &S[i]
+	ld, ok := fa.X.(*ssa.UnOp)
+	if !ok {
+		return true
+	}
+	ia, ok := ld.X.(*ssa.IndexAddr)
+	if !ok {
+		return true
+	}
+	S := ia.X
+	// every comparison `i < len(X)` that controls the loop must use X == S
+	found := false
+	for _, b := range append([]*ssa.BasicBlock{h}, h.Preds...) {
+		for _, ins := range b.Instrs {
+			bo, ok := ins.(*ssa.BinOp)
+			if !ok || bo.Op != token.LSS {
+				continue
+			}
+			c, ok := bo.Y.(*ssa.Call)
+			if !ok {
+				continue
+			}
+			bi, ok := c.Call.Value.(*ssa.Builtin)
+			if !ok || bi.Name() != "len" || len(c.Call.Args) != 1 {
+				continue
+			}
+			found = true
+			if c.Call.Args[0] != S {
+				return false
+			}
+		}
+	}
+	if !found {
+		// the bound is computed once before the loop: look for len(...) feeding the header's comparison
+		for _, ins := range h.Instrs {
+			bo, ok := ins.(*ssa.BinOp)
+			if !ok || bo.Op != token.LSS {
+				continue
+			}
+			if c, ok := bo.Y.(*ssa.Call); ok {
+				if bi, ok := c.Call.Value.(*ssa.Builtin); ok && bi.Name() == "len" && len(c.Call.Args) == 1 && c.Call.Args[0] != S {
+					return false
+				}
+			}
+		}
+	}
+	return true
 }
